@@ -47,7 +47,7 @@ def sh(cmd, cwd=None, timeout=900, env=None, log=None):
     text = open(out).read()
     if log is None:
         os.unlink(out)
-    return rc, text[-3000:]
+    return rc, text if log else text[-3000:]
 
 
 def worktree(tag):
@@ -132,7 +132,7 @@ def cmd_run(sid, props):
             env = dict(os.environ, VERIF_REPO=pat, VERIF_EVIDENCE_DIR=evid)
             t0 = time.time()
             rc, out = sh([PY, os.path.join(VERIF, 'run.py'), p, '--tier', 'quick'], cwd=VERIF,
-                         env=env, timeout=1500)
+                         env=env, timeout=1800, log='/var/tmp/verif-seedlog-%s-%s.log' % (sid, p))
             viol = [l for l in out.splitlines() if l.startswith('VIOLATION')]
             sigs = [l.strip() for l in out.splitlines() if l.strip().startswith('signature:')]
             res[p] = {'rc': rc, 'violations': len(viol), 'signatures': sigs[:4],
